@@ -572,6 +572,8 @@ func (r *Recomposer) setValue(v any, rv reflect.Value, sf *reflect.StructField) 
 		if s, ok := v.(string); ok && sf != nil && strings.Contains(sf.Tag.Get("json"), ",string") {
 			if i, err := strconv.Atoi(s); err == nil {
 				rv.Set(reflect.ValueOf(i).Convert(rv.Type()))
+			} else if u, uerr := strconv.ParseUint(s, 10, 64); uerr == nil && rv.CanUint() {
+				rv.SetUint(u) // above MaxInt64
 			} else {
 				panic(err)
 			}
